@@ -37,6 +37,8 @@ class TS:
         self.exc = None
         self.shim = None
         self.last_run = 0
+        self.timed = False
+        self.expired = False
 
 
 class Sched:
@@ -53,6 +55,7 @@ class Sched:
         self.aborting = False
         self.done_evt = _th.Event()
         self.env_steps = []        # callables: () -> list of (label, fn) enabled environment steps
+        self.timeouts_fired = 0    # timed waits that were made to expire (always a non-default choice unless nothing else can run)
         self.idle = 0
         self.vclock = 0.0
         self.record_points = record_points
@@ -107,6 +110,10 @@ class Sched:
             env += src()
         opts = ([("env", e) for e in env] + [("thread", t) for t in runnable]) if self.eager_env else \
                ([("thread", t) for t in runnable] + [("env", e) for e in env])
+        # a wait with a time-out may expire: never the default while anything else can happen
+        for t in self.threads:
+            if t.status == "blocked" and t.timed and not t.pred():
+                opts.append(("timeout", t))
         if not opts:
             # only polling loops are left: wake them in least-recently-run order (fair), so that a flag
             # set by plain assignment (not a shim operation) is eventually noticed by whoever polls it
@@ -154,6 +161,16 @@ class Sched:
                 if self.record_points:
                     self.points.append(("env", label))
                 continue
+            if kind == "timeout":
+                what.expired = True
+                what.timed = False
+                real = what.pred
+                what.pred = lambda: True
+                self.timeouts_fired += 1
+                self.progress += 1
+                if self.record_points:
+                    self.points.append(("timeout", what.name))
+                continue
             if kind == "spinner":
                 self.idle += 1
                 if self.idle > 3 * len(self.threads) + 6:
@@ -165,7 +182,7 @@ class Sched:
             return what
 
     # ---- the scheduling point ------------------------------------------------
-    def point(self, label, spin=False, pred=None, effect=False):
+    def point(self, label, spin=False, pred=None, effect=False, timed=False):
         """Scheduling point, taken *before* the operation it announces.  `effect` marks operations that can
         change what a polling loop is waiting for (device traffic, queue/event operations, thread start/exit):
         only those re-enable spinners.  Plain source lines, sleeps and read time-outs are not effects, so
@@ -178,11 +195,12 @@ class Sched:
         me.label = label
         if effect:
             self.progress += 1
+        me.expired = False
         if pred is not None:
             if pred():
                 me.status = "run"
             else:
-                me.status, me.pred = "blocked", pred
+                me.status, me.pred, me.timed = "blocked", pred, timed
         elif spin:
             me.status, me.spin_at = "spin", self.progress
         else:
@@ -338,7 +356,11 @@ def make_shims(S):
             return self.flag
 
         def wait(self, timeout=None):
-            S.point("event.wait", pred=lambda: self.flag)
+            S.point("event.wait", pred=lambda: self.flag, timed=timeout is not None)
+            me = S.me()
+            if me is not None and me.expired and not self.flag:
+                me.expired = False
+                return False
             return True
 
     class ShimQueue:
